@@ -46,10 +46,12 @@ ASSUMPTIONS = ['nothing is claimed when update or save raised (C10 / C18 watch t
 PRIOR = (gmutate.FS_CLASSES * 2 + ['m-digest', 'm-size', 'm-drop', 'm-ghost',
                                    'm-conflict', 'm-disjoint-wrong', 'm-compatible-dup',
                                    'm-chain', 'm-dup-ignore', 'm-unsupported',
-                                   'm-dup-manifest-entry', 'm-dup-manifest-entry']
+                                   'm-dup-manifest-entry', 'm-dup-manifest-entry',
+                                   'm-upper-digest', 'm-digest-shared']
          + gmutate.UNREG_CLASSES * 2 + ['m-entry-for-dir', 'm-misc-dup',
                                         'm-manifest-data-twin'])
-EDITS = ['content', 'size', 'delete', 'stray', 'stray', 'stray-manifest-name', 'retype']
+EDITS = ['content', 'size', 'delete', 'stray', 'stray', 'stray-manifest-name', 'retype',
+         'hidden-content', 'hidden-delete']
 N = {'quick': 1500, 'thorough': 60000}
 PER_UNIT = 15
 
@@ -308,6 +310,13 @@ def gen_history(rng, root, big=False):
         rounds.append({'edits': edits, 'opt': opt})
         # edits are applied when the round is executed; options may refer to
         # directories that exist only then, so scope is validated at run time
+    for r in case['mutations']:
+        # an update asking for exactly the hash set an upper-cased entry carries
+        if r.get('class') == 'm-upper-digest' and r.get('hashes') and all(
+                h in mtext.supported_hashes() for h in r['hashes']) \
+                and rng.random() < 0.7:
+            rounds[0]['opt']['hashes'] = list(r['hashes'])
+            rounds[0]['opt']['force'] = False
     case['rounds'] = rounds
     case['one_loader'] = rng.random() < 0.3
     return case
@@ -340,6 +349,27 @@ def apply_edit(root, ed):
     dirs.sort()
     k = ed['kind']
     ops = []
+    if k in ('hidden-content', 'hidden-delete'):
+        # a hidden file (a previous Manifest may list it although gemato itself never
+        # would) is edited or removed
+        hidden = sorted(
+            os.path.relpath(os.path.join(dp, f), root)
+            for dp, dn, fn in os.walk(root) for f in fn
+            if (f.startswith('.') or any(c.startswith('.') for c in os.path.relpath(
+                dp, root).split(os.sep) if c != '.'))
+            and os.path.isfile(os.path.join(dp, f))
+            and not os.path.islink(os.path.join(dp, f)))
+        if not hidden:
+            return ops
+        f = hidden[ed['pick'] % len(hidden)]
+        if k == 'hidden-delete':
+            ops.append({'op': 'unlink', 'p': f})
+        else:
+            with open(os.path.join(root, f), 'rb') as fh:
+                data = fh.read()
+            ops.append({'op': 'write', 'p': f, 'c': common.spec_of(data + b'edited')})
+        gmutate.apply_ops(root, ops)
+        return ops
     if k in ('content', 'size', 'delete', 'retype'):
         if not files:
             return ops
